@@ -15,7 +15,13 @@
 EXTENDS Naturals, Integers, Sequences, FiniteSets, TLC
 
 CONSTANTS MaxIds,     \* bound on the id counter (state constraint)
-          MaxOps, KeepHist
+          MaxOps, KeepHist,
+          IdSpace,    \* how many different ids a group has (the code: 2^28, the low ATOM_BITS of the counter)
+          SkipLive,   \* TRUE: the code's rule since bc93373 (ids still in use are skipped once the counter has wrapped);
+                      \* FALSE: the original rule (id = counter mod IdSpace, whatever is live) -- kept to show it aliases
+          Objs,       \* the objects offered to a registration (per id and side of the wrap)
+          MustBurn,   \* TRUE (the wrap generator): nothing is registered before the Burn step
+          NeedBurn    \* TRUE (generators): the counter wraps only after a Burn step (the library's id space is 2^28)
 
 NOID == -1
 NULL == 0
@@ -23,9 +29,11 @@ VARIABLES live,    \* id -> object (objects are positive integers)
           next,    \* id counter
           cache,   \* sequence of 4 records [id, obj]
           inited,  \* the group exists
+          wrapped, \* the counter has run through the whole id space at least once
+          burnt,   \* a Burn step has moved the counter to the last ids of the space
           out, hist
-vars == <<live, next, cache, inited, out, hist>>
-view == <<live, next, cache, inited>>
+vars == <<live, next, cache, inited, wrapped, burnt, out, hist>>
+view == <<live, next, cache, inited, wrapped, burnt>>
 
 Empty == [id |-> NOID, obj |-> NULL]
 Log(op, args, o) == /\ out' = o
@@ -33,20 +41,43 @@ Log(op, args, o) == /\ out' = o
                                            ELSE <<[op |-> op, args |-> args, out |-> o]>>
 
 Init == /\ live = <<>> /\ next = 0 /\ cache = [i \in 1..4 |-> Empty] /\ inited = FALSE
+        /\ wrapped = FALSE /\ burnt = FALSE
         /\ out = [ret |-> 0] /\ hist = <<>>
 
 \* HAinit_group
 InitGroup == /\ ~inited /\ inited' = TRUE
              /\ Log("InitGroup", [a |-> 0], [ret |-> 0])
-             /\ UNCHANGED <<live, next, cache>>
+             /\ UNCHANGED <<live, next, cache, wrapped, burnt>>
 
-\* HAregister_atom(grp, obj): the new id is the counter; it is never an id that is live
+\* HAregister_atom(grp, obj): the new id is the counter taken modulo the id space; once the counter has wrapped the ids
+\* still in use are skipped (SkipLive).  The counter is the only thing a registration reads: `next` is kept normalised.
+TailId == IdSpace - 3                                       \* where a Burn step leaves the counter: 3 ids before the wrap
+Skip(n) == IF SkipLive /\ (wrapped \/ n = IdSpace)        \* the id issued when the (normalised) counter shows n
+           THEN LET m == n % IdSpace
+                    c == {k \in 0..(IdSpace - 1) : ((m + k) % IdSpace) \notin DOMAIN live} IN
+                IF c = {} THEN NOID ELSE (m + (CHOOSE k \in c : \A j \in c : k <= j)) % IdSpace
+           ELSE n % IdSpace
 Register(obj) ==
     /\ inited
-    /\ live' = [x \in DOMAIN live \cup {next} |-> IF x = next THEN obj ELSE live[x]]
-    /\ next' = next + 1
-    /\ Log("Register", [obj |-> obj], [ret |-> next])
-    /\ UNCHANGED <<cache, inited>>
+    /\ (NeedBurn /\ ~burnt) => next + 1 < IdSpace
+    /\ MustBurn => burnt
+    /\ LET id == Skip(next) IN
+         IF id = NOID
+         THEN /\ Log("Register", [obj |-> obj], [ret |-> -1]) /\ UNCHANGED <<live, next, wrapped>>
+         ELSE /\ live' = [x \in DOMAIN live \cup {id} |-> IF x = id THEN obj ELSE live[x]]
+              /\ next' = id + 1
+              /\ wrapped' = (wrapped \/ next = IdSpace)
+              /\ Log("Register", [obj |-> obj], [ret |-> id])
+    /\ UNCHANGED <<cache, inited, burnt>>
+
+\* (IdSpace - 3 - next) register/remove pairs of a throwaway object: the counter moves to the last three ids of the
+\* space, nothing else changes (a removed atom that was never looked up is in no cache slot)
+Burn ==
+    /\ inited /\ ~burnt /\ ~wrapped /\ next <= TailId
+    /\ MustBurn \/ ~NeedBurn
+    /\ next' = TailId /\ burnt' = TRUE
+    /\ Log("Burn", [from |-> next, space |-> IdSpace], [ret |-> 0])
+    /\ UNCHANGED <<live, cache, inited, wrapped>>
 
 Swap(c, i, j) == [c EXCEPT ![i] = c[j], ![j] = c[i]]
 
@@ -61,7 +92,7 @@ Lookup(id) ==
             THEN /\ cache' = [cache EXCEPT ![4] = [id |-> id, obj |-> live[id]]]
                  /\ Log("Lookup", [id |-> id], [ret |-> live[id]])
             ELSE /\ Log("Lookup", [id |-> id], [ret |-> NULL]) /\ UNCHANGED cache
-    /\ UNCHANGED <<live, next, inited>>
+    /\ UNCHANGED <<live, next, inited, wrapped, burnt>>
 
 \* HAremove_atom(id): out of the table; the (single) cache entry holding it is cleared
 FirstSlot(id) == IF \E i \in 1..4 : cache[i].id = id
@@ -73,17 +104,19 @@ Remove(id) ==
             /\ cache' = IF FirstSlot(id) = 0 THEN cache ELSE [cache EXCEPT ![FirstSlot(id)] = Empty]
             /\ Log("Remove", [id |-> id], [ret |-> live[id]])
        ELSE /\ Log("Remove", [id |-> id], [ret |-> NULL]) /\ UNCHANGED <<live, cache>>
-    /\ UNCHANGED <<next, inited>>
+    /\ UNCHANGED <<next, inited, wrapped, burnt>>
 
 \* HAdestroy_group (last reference): everything of the group goes, including its cache entries
 Destroy ==
     /\ inited /\ inited' = FALSE
-    /\ live' = <<>> /\ next' = 0
+    /\ live' = <<>> /\ next' = 0 /\ wrapped' = FALSE /\ burnt' = FALSE
     /\ cache' = [i \in 1..4 |-> Empty]
     /\ Log("Destroy", [a |-> 0], [ret |-> 0])
 
-Next == \/ InitGroup \/ Destroy
-        \/ \E o \in 1..3 : Register(100 + next * 3 + o)
+RegObj(o) == 100 + (IF wrapped \/ next = IdSpace THEN 50 ELSE 0) + (next % IdSpace) * 3 + o
+\* objects registered after the wrap are different from the ones registered before it (so that aliasing shows)
+Next == \/ InitGroup \/ Destroy \/ Burn
+        \/ \E o \in Objs : Register(RegObj(o))
         \/ \E id \in 0..MaxIds : Lookup(id) \/ Remove(id)
 Spec == Init /\ [][Next]_vars
 
@@ -96,7 +129,10 @@ NoDupCache == \A i, j \in 1..4 : (i # j /\ cache[i].id # NOID) => cache[i].id # 
 LookupAbstract == (hist # <<>> /\ hist[Len(hist)].op = "Lookup") =>
                     LET e == hist[Len(hist)] IN
                       e.out.ret = IF e.args.id \in DOMAIN live THEN live[e.args.id] ELSE NULL
-\* ids of live atoms are pairwise distinct by construction (the map); a new id is never live
-FreshIds == next \notin DOMAIN live
+\* ids of live atoms are pairwise distinct by construction (the map); before the wrap a new id is never live
+FreshIds == ~wrapped => (next % IdSpace) \notin DOMAIN live \/ next = IdSpace
+\* a registration never changes what an id in use designates (the counter wrap must not alias: C13 "never alias")
+StableDesignation == [][\A i \in DOMAIN live \cap DOMAIN live' :
+                            (live'[i] = live[i]) \/ (hist' # <<>> /\ hist'[Len(hist')].op # "Register")]_vars
 Bound == next <= MaxIds /\ Len(hist) < MaxOps
 =============================================================================
